@@ -216,7 +216,11 @@ def run(cfg, ops=None, rng=None):
                 )
             return
         if op["op"] == "setattr" and k in CLASS_LEVEL_NAMES:
-            setattr(node, k, op["v"])
+            try:
+                setattr(node, k, op["v"])
+            except Exception as exc:  # noqa: BLE001
+                raise Violation("C20", "forward-write", step, "forward-write:raises:" + type(exc).__name__,
+                                "step %d %s: assigning through link %d raised %s: %s" % (step, op, i, type(exc).__name__, exc))
             h = store.holder(i)
             res.bump("class_level_writes")
             got = world.nodes[h].__dict__.get(k, MISSING)
